@@ -116,3 +116,27 @@ Example c06_script_example :
   join_script [1; 2] 0 [JoinErr (MemberIdRequired 7); JoinOk 3 7 true; SyncOk]
   = ([RJoin [1; 2] 0; RJoin [1; 2] 7; RSync 3 7 true], Joined).
 Proof. reflexivity. Qed.
+
+(* ==== Convergence clause on the quiet-period model (model/C06_Converge.v, proof/C06_converge.v) ============
+   The model: the group coordinator (after harness/simkit/groupcoord.py) composed with any number of members
+   whose reactions to reply codes are the translated dispatch chains above; quiet steps only (member actions,
+   expiry of orphan ids).  Tied to the real consumers by trace acceptance on every simulated run
+   (harness/c06_converge.py): the quiet suffix of each run is replayed inside Coq from a state read off the
+   real objects, which must satisfy [inv_b]. *)
+From Verif Require Import C06_Converge C06_converge.
+
+(* A converged state (coordinator Stable, every live member settled in its generation with the heartbeat task
+   running and no rejoin flag, no orphan ids) stays converged under every quiet step; every step enabled in it
+   is a no-op heartbeat / commit exchange; none is a JoinGroup: no further rebalance. *)
+Theorem c06_converged_closed : forall s l s',
+  inv_b s = true -> converged_b s = true -> step s l = Some s' ->
+  converged_b s' = true /\ inv_b s' = true /\ is_send_join l = false /\ noop_b s l = true.
+Proof. exact converged_closed. Qed.
+Print Assumptions c06_converged_closed.
+
+Theorem c06_converged_members : forall s, inv_b s = true -> converged_b s = true ->
+  forall m, In m (s_ms s) -> m_live m = true ->
+    m_gen m = c_gen (s_c s) /\ m_hb m = true /\ m_rejoin m = false /\ m_ph m = PIdle
+    /\ In (m_id m) (ids (c_ents (s_c s))) /\ c_st (s_c s) = CStable.
+Proof. exact converged_members. Qed.
+Print Assumptions c06_converged_members.
